@@ -1,0 +1,44 @@
+// eventpp library
+// Verification hooks. Everything in this file is inert unless EVENTPP_VERIF is defined.
+//
+// EVENTPP_VERIF_POINT(tag) marks a place where a thread touches shared state (or sits inside
+// a critical section). With EVENTPP_VERIF defined it calls a user-installed function, which lets
+// a test harness that owns the thread schedule preempt the calling thread exactly there.
+// Without EVENTPP_VERIF it expands to nothing.
+
+#ifndef EVENTPP_VERIF_I_H_411795830211
+#define EVENTPP_VERIF_I_H_411795830211
+
+#ifdef EVENTPP_VERIF
+
+namespace eventpp {
+namespace verif {
+
+using PointFunction = void (*)(const char * tag);
+
+inline PointFunction & pointFunction()
+{
+	static PointFunction function = nullptr;
+	return function;
+}
+
+inline void point(const char * tag)
+{
+	const PointFunction function = pointFunction();
+	if(function != nullptr) {
+		function(tag);
+	}
+}
+
+} //namespace verif
+} //namespace eventpp
+
+#define EVENTPP_VERIF_POINT(tag) ::eventpp::verif::point(tag)
+
+#else
+
+#define EVENTPP_VERIF_POINT(tag) ((void)0)
+
+#endif
+
+#endif
